@@ -228,6 +228,8 @@ type op08 struct {
 	A, B int // indexes into fixtures / small parameters
 	Val  any // private data for writer ops (created before the workers start, read-only afterwards)
 	Desc string
+
+	handed [][]byte // input buffers handed to the library during exec (overwritten afterwards, as a caller may)
 }
 
 func (o *op08) String() string { return fmt.Sprintf("%s(%d,%d,o%d)%s", o.Fn, o.A, o.B, o.O, o.Desc) }
@@ -413,6 +415,7 @@ func privateData(i int) any {
 
 // exec runs the operation on task-private data with the shared fixtures.
 func (o *op08) exec() (r ret08) {
+	o.handed = o.handed[:0]
 	defer func() {
 		if p := recover(); p != nil {
 			r.canon = fmt.Sprintf("PANIC(%v)", p)
@@ -433,30 +436,30 @@ func (o *op08) exec() (r ret08) {
 	}
 	switch o.Fn {
 	case "oj.Parse":
-		val(oj.Parse(doc(o.A)))
+		val(oj.Parse(o.doc(o.A)))
 	case "oj.ParseString":
-		val(oj.ParseString(string(doc(o.A))))
+		val(oj.ParseString(string(o.doc(o.A))))
 	case "oj.Load":
-		rd := sim.NewSimReader(doc(o.A), &sim.Schedule{Every: 1 + o.B%5, FailAt: -1})
+		rd := sim.NewSimReader(o.doc(o.A), &sim.Schedule{Every: 1 + o.B%5, FailAt: -1})
 		val(oj.Load(rd))
 	case "oj.Validate":
-		r.canon = canonDocs(oj.Validate(doc(o.A)) != nil, nil)
+		r.canon = canonDocs(oj.Validate(o.doc(o.A)) != nil, nil)
 	case "oj.Tokenize":
 		h := newBuilderHandler()
-		err := oj.Tokenize(doc(o.A), h)
+		err := oj.Tokenize(o.doc(o.A), h)
 		r.canon = canonDocs(err != nil, h.docs)
 		r.retained = h.docs
 	case "oj.Match":
 		var hits []string
-		err := oj.Match(doc(o.A), func(p jp.Expr, v any) { hits = append(hits, p.String()+"="+ref.Exact(v)) }, c08Exprs[o.B%5])
+		err := oj.Match(o.doc(o.A), func(p jp.Expr, v any) { hits = append(hits, p.String()+"="+ref.Exact(v)) }, c08Exprs[o.B%5])
 		r.canon = canonDocs(err != nil, []any{strings.Join(hits, ";")})
 	case "oj.Unmarshal":
 		var n za.Node
-		err := oj.Unmarshal([]byte(`{"ID":3,"In":{"N":1,"S":"s"},"Kids":[{"ID":4}],"Attrs":{"k":{"N":2}},"t":"x","F64":1.5}`), &n)
+		err := oj.Unmarshal(o.own(`{"ID":3,"In":{"N":1,"S":"s"},"Kids":[{"ID":4}],"Attrs":{"k":{"N":2}},"t":"x","F64":1.5}`), &n)
 		r.canon = fmt.Sprintf("%v %s", err != nil, derefAllAny(n))
 	case "sen.Unmarshal":
 		var n za.Node
-		err := sen.Unmarshal([]byte(`{ID:3 In:{N:1 S:s} Kids:[{ID:4}] t:x F64:1.5}`), &n)
+		err := sen.Unmarshal(o.own(`{ID:3 In:{N:1 S:s} Kids:[{ID:4}] t:x F64:1.5}`), &n)
 		r.canon = fmt.Sprintf("%v %s", err != nil, derefAllAny(n))
 	case "oj.JSON":
 		s := oj.JSON(o.Val)
@@ -479,9 +482,9 @@ func (o *op08) exec() (r ret08) {
 		err := oj.Write(sw, o.Val, &op)
 		text(sw.Buf, err)
 	case "sen.Parse":
-		val(sen.Parse(senDoc(o.A)))
+		val(sen.Parse(o.senDoc(o.A)))
 	case "sen.ParseReader":
-		rd := sim.NewSimReader(senDoc(o.A), &sim.Schedule{Every: 1 + o.B%5, FailAt: -1})
+		rd := sim.NewSimReader(o.senDoc(o.A), &sim.Schedule{Every: 1 + o.B%5, FailAt: -1})
 		val(sen.ParseReader(rd))
 	case "sen.String":
 		s := sen.String(o.Val)
@@ -518,11 +521,11 @@ func (o *op08) exec() (r ret08) {
 		r.canon = fmt.Sprintf("%v %s", err != nil, derefAll(reflect.ValueOf(e)))
 	case "oj.Unmarshal(embedded)":
 		var e za.EmbedsDeep
-		err := oj.Unmarshal([]byte(`{"Z":1,"WIn":{"Left":{"X":1.5,"Name":"n"},"Right":{"X":2},"M":{"k":{"N":2}}},"WList":[{"A":1,"B":"b","L":[1,2]}]}`), &e)
+		err := oj.Unmarshal(o.own(`{"Z":1,"WIn":{"Left":{"X":1.5,"Name":"n"},"Right":{"X":2},"M":{"k":{"N":2}}},"WList":[{"A":1,"B":"b","L":[1,2]}]}`), &e)
 		r.canon = fmt.Sprintf("%v %s", err != nil, derefAll(reflect.ValueOf(e)))
 	case "gen.Parser":
 		p := gen.Parser{}
-		n, err := p.Parse(doc(o.A))
+		n, err := p.Parse(o.doc(o.A))
 		r.canon = canonDocs(err != nil, []any{nodeAny(n)})
 	case "jp.Get":
 		res := c08Exprs[o.B%len(c08Exprs)].Get(privateData(o.A))
@@ -568,29 +571,29 @@ func (o *op08) exec() (r ret08) {
 		s := c08Scripts[o.B%len(c08Scripts)]
 		r.canon = fmt.Sprint(s.Match(map[string]any{"d": int64(o.A % 4), "x": []string{"y", "z", "q"}[o.A%3], "s": []string{"str", "stir", "x"}[o.A%3], "arr": []any{1, 2}}), s.Match(int64(o.A%4)))
 	case "oj.ValidateReader":
-		rd := sim.NewSimReader(doc(o.A), &sim.Schedule{Every: 1 + o.B%5, FailAt: -1})
+		rd := sim.NewSimReader(o.doc(o.A), &sim.Schedule{Every: 1 + o.B%5, FailAt: -1})
 		r.canon = canonDocs(oj.ValidateReader(rd) != nil, nil)
 	case "oj.TokenizeLoad":
 		h := newBuilderHandler()
-		rd := sim.NewSimReader(doc(o.A), &sim.Schedule{Every: 1 + o.B%5, FailAt: -1})
+		rd := sim.NewSimReader(o.doc(o.A), &sim.Schedule{Every: 1 + o.B%5, FailAt: -1})
 		err := oj.TokenizeLoad(rd, h)
 		r.canon = canonDocs(err != nil, h.docs)
 	case "oj.MatchLoad":
 		var hits []string
-		rd := sim.NewSimReader(doc(o.A), &sim.Schedule{Every: 1 + o.B%5, FailAt: -1})
+		rd := sim.NewSimReader(o.doc(o.A), &sim.Schedule{Every: 1 + o.B%5, FailAt: -1})
 		err := oj.MatchLoad(rd, func(p jp.Expr, v any) { hits = append(hits, p.String()+"="+ref.Exact(v)) }, c08Exprs[o.B%5])
 		r.canon = canonDocs(err != nil, []any{strings.Join(hits, ";")})
 	case "sen.Tokenize":
 		h := newBuilderHandler()
-		err := sen.Tokenize(senDoc(o.A), h)
+		err := sen.Tokenize(o.senDoc(o.A), h)
 		r.canon = canonDocs(err != nil, h.docs)
 	case "sen.Match":
 		var hits []string
-		err := sen.Match(senDoc(o.A), func(p jp.Expr, v any) { hits = append(hits, p.String()+"="+ref.Exact(v)) }, c08Exprs[o.B%5])
+		err := sen.Match(o.senDoc(o.A), func(p jp.Expr, v any) { hits = append(hits, p.String()+"="+ref.Exact(v)) }, c08Exprs[o.B%5])
 		r.canon = canonDocs(err != nil, []any{strings.Join(hits, ";")})
 	case "sen.MatchLoad":
 		var hits []string
-		rd := sim.NewSimReader(senDoc(o.A), &sim.Schedule{Every: 1 + o.B%5, FailAt: -1})
+		rd := sim.NewSimReader(o.senDoc(o.A), &sim.Schedule{Every: 1 + o.B%5, FailAt: -1})
 		err := sen.MatchLoad(rd, func(p jp.Expr, v any) { hits = append(hits, p.String()+"="+ref.Exact(v)) }, c08Exprs[o.B%5])
 		r.canon = canonDocs(err != nil, []any{strings.Join(hits, ";")})
 	case "pretty.WriteJSON":
@@ -600,9 +603,9 @@ func (o *op08) exec() (r ret08) {
 		err := pretty.WriteJSON(sw, o.Val, float64(20+o.A*5)+0.3, o.B%2 == 0, &op)
 		text(sw.Buf, err)
 	case "oj.MustParse":
-		r.canon = ref.Exact(oj.MustParse(doc(o.A % 5)))
+		r.canon = ref.Exact(oj.MustParse(o.doc(o.A % 5)))
 	case "sen.MustParse":
-		r.canon = ref.Exact(sen.MustParse(senDoc(o.A % 2)))
+		r.canon = ref.Exact(sen.MustParse(o.senDoc(o.A % 2)))
 	case "alt.Alter":
 		r.canon = ref.Exact(alt.Alter(privateData(o.A)))
 	case "alt.Dup":
@@ -636,34 +639,34 @@ func (o *op08) exec() (r ret08) {
 		r.canon = fmt.Sprint(sen.Write(sw, []any{1, "two", []any{3, 4, 5}}) != nil)
 	case "oj.Load(reader error)":
 		// the error may come anywhere, also after a complete value has been read (B == 15: at the very end)
-		d := doc(o.A)
+		d := o.doc(o.A)
 		rd := sim.NewSimReader(d, &sim.Schedule{Every: 3, FailAt: (o.B * (len(d) + 1)) / 15 % (len(d) + 1)})
 		v, err := oj.Load(rd)
 		r.canon = fmt.Sprint(err != nil) + ref.Exact(v)
 	case "sen.ParseReader(reader error)":
-		d := senDoc(o.A)
+		d := o.senDoc(o.A)
 		rd := sim.NewSimReader(d, &sim.Schedule{Every: 3, FailAt: (o.B * (len(d) + 1)) / 15 % (len(d) + 1)})
 		v, err := sen.ParseReader(rd)
 		r.canon = fmt.Sprint(err != nil) + ref.Exact(v)
 	case "oj.Parse(callback)":
 		var docs []any
-		v, err := oj.Parse([]byte(`1 [2] {"a":3} 4`), func(x any) bool { docs = append(docs, x); return false })
+		v, err := oj.Parse(o.own(`1 [2] {"a":3} 4`), func(x any) bool { docs = append(docs, x); return false })
 		r.canon = canonDocs(err != nil, append(docs, v))
 	case "sen.Parse(callback)":
 		var docs []any
-		v, err := sen.Parse([]byte(`1 [2] {a:3} 4`), func(x any) bool { docs = append(docs, x); return false })
+		v, err := sen.Parse(o.own(`1 [2] {a:3} 4`), func(x any) bool { docs = append(docs, x); return false })
 		r.canon = canonDocs(err != nil, append(docs, v))
 	case "oj.Parse(empty)":
-		v, err := oj.Parse([]byte([]string{"", "  \n", "[1,"}[o.B%3]))
+		v, err := oj.Parse(o.own([]string{"", "  \n", "[1,"}[o.B%3]))
 		r.canon = canonDocs(err != nil, []any{v})
 	case "sen.Unmarshal(keeper)":
 		var k keeper
-		err := sen.Unmarshal([]byte(fmt.Sprintf(`{n:%d props:{owner:%d seq:%d deep:{a:[1 2]}}}`, o.A, o.A, o.B)), &k, c08Keeper)
+		err := sen.Unmarshal(o.own(fmt.Sprintf(`{n:%d props:{owner:%d seq:%d deep:{a:[1 2]}}}`, o.A, o.A, o.B)), &k, c08Keeper)
 		r.canon = fmt.Sprint(err != nil, k.N) + ref.Exact(k.Props)
 		r.retained = []any{k.Props}
 	case "oj.Unmarshal(keeper)":
 		var k keeper
-		err := oj.Unmarshal([]byte(fmt.Sprintf(`{"n":%d,"props":{"owner":%d,"seq":%d,"deep":{"a":[1,2]}}}`, o.A, o.A, o.B)), &k, c08Keeper)
+		err := oj.Unmarshal(o.own(fmt.Sprintf(`{"n":%d,"props":{"owner":%d,"seq":%d,"deep":{"a":[1,2]}}}`, o.A, o.A, o.B)), &k, c08Keeper)
 		r.canon = fmt.Sprint(err != nil, k.N) + ref.Exact(k.Props)
 		r.retained = []any{k.Props}
 	case "jp.Get(struct)":
@@ -724,35 +727,35 @@ func (o *op08) exec() (r ret08) {
 			failing := strings.Contains(o.Fn, "invalid")
 			switch {
 			case strings.HasPrefix(o.Fn, "sen.MustParseReader"):
-				d := senDoc(o.A % 2)
+				d := o.senDoc(o.A % 2)
 				sch := &sim.Schedule{Every: 3, FailAt: -1}
 				if failing {
 					if o.B%2 == 0 {
-						d = senDoc(2) // truncated
+						d = o.senDoc(2) // truncated
 					} else {
 						sch.FailAt = (o.B * (len(d) + 1)) / 63 % (len(d) + 1)
 					}
 				}
 				v = sen.MustParseReader(sim.NewSimReader(d, sch))
 			case strings.HasPrefix(o.Fn, "oj.MustLoad"):
-				d := doc(o.A % 3)
+				d := o.doc(o.A % 3)
 				sch := &sim.Schedule{Every: 3, FailAt: -1}
 				if failing {
 					if o.B%2 == 0 {
-						d = doc(5 + o.A%2) // truncated
+						d = o.doc(5 + o.A%2) // truncated
 					} else {
 						sch.FailAt = (o.B * (len(d) + 1)) / 63 % (len(d) + 1)
 					}
 				}
 				v = oj.MustLoad(sim.NewSimReader(d, sch))
 			case o.Fn == "oj.MustParse(invalid)":
-				v = oj.MustParse(doc(5 + o.A%2))
+				v = oj.MustParse(o.doc(5 + o.A%2))
 			case o.Fn == "sen.MustParse(invalid)":
-				v = sen.MustParse(senDoc(2))
+				v = sen.MustParse(o.senDoc(2))
 			case o.Fn == "oj.MustParseString":
-				v = oj.MustParseString(string(doc(o.A % 3)))
+				v = oj.MustParseString(string(o.doc(o.A % 3)))
 			default:
-				v, err = oj.ParseString(string(doc(5 + o.A%2)))
+				v, err = oj.ParseString(string(o.doc(5 + o.A%2)))
 			}
 		}()
 		r.canon = fmt.Sprint(err != nil) + ref.Exact(v)
@@ -815,7 +818,7 @@ func (o *op08) exec() (r ret08) {
 		r.canon = fmt.Sprint(ok) + ref.Exact(v)
 	case "jp.GetNodes(gen)", "jp.FirstNode(gen)", "jp.Get(gen)", "jp.Set(gen)", "jp.Has(gen)", "jp.Locate(gen)", "jp.Remove(gen)":
 		var p gen.Parser
-		n, err := p.Parse(doc(o.A % 3))
+		n, err := p.Parse(o.doc(o.A % 3))
 		if err != nil {
 			r.canon = "error"
 			break
@@ -905,14 +908,14 @@ func (o *op08) exec() (r ret08) {
 		r.canon = ref.Exact(alt.Alter(freshMixed(o.A, o.B), opts(o.O)))
 	case "oj.Unmarshal(invalid)":
 		var out any
-		err := oj.Unmarshal([]byte([]string{`{"a":`, `[1,2`, `{"a":1}x`, `[1,2]`}[o.B%4]), &out)
+		err := oj.Unmarshal(o.own([]string{`{"a":`, `[1,2`, `{"a":1}x`, `[1,2]`}[o.B%4]), &out)
 		r.canon = fmt.Sprint(err != nil) + ref.Exact(out)
 	case "sen.Unmarshal(invalid)":
 		var out any
-		err := sen.Unmarshal([]byte([]string{`{a:`, `[1 2`, `[1 2]`}[o.B%3]), &out)
+		err := sen.Unmarshal(o.own([]string{`{a:`, `[1 2`, `[1 2]`}[o.B%3]), &out)
 		r.canon = fmt.Sprint(err != nil) + ref.Exact(out)
 	case "oj.Parse(ints)":
-		val(oj.Parse([]byte(`{"id":9007199254740993,"n":3,"f":1.5}`)))
+		val(oj.Parse(o.own(`{"id":9007199254740993,"n":3,"f":1.5}`)))
 	case "oj.JSON(big)": // larger than the pooled writers' default WriteLimit
 		s := oj.JSON([]any{strings.Repeat("x", 1100+o.A*20), o.B})
 		r.canon, r.retained = s, []any{s}
@@ -933,7 +936,7 @@ func (o *op08) exec() (r ret08) {
 		r.retained = []any{sw.Buf}
 	case "oj.Parse(panicking callback)":
 		n := 0
-		_, err := oj.Parse([]byte(`1 [2] {"a":3} 4`), func(v any) bool {
+		_, err := oj.Parse(o.own(`1 [2] {"a":3} 4`), func(v any) bool {
 			n++
 			if n == 1+o.B%3 {
 				panic("verif: injected callback panic")
@@ -943,7 +946,7 @@ func (o *op08) exec() (r ret08) {
 		r.canon = fmt.Sprint(err != nil)
 	case "sen.Parse(panicking callback)":
 		n := 0
-		_, err := sen.Parse([]byte(`1 [2] {a:3} 4`), func(v any) bool {
+		_, err := sen.Parse(o.own(`1 [2] {a:3} 4`), func(v any) bool {
 			n++
 			if n == 1+o.B%3 {
 				panic("verif: injected callback panic")
@@ -953,7 +956,7 @@ func (o *op08) exec() (r ret08) {
 		r.canon = fmt.Sprint(err != nil)
 	case "oj.Tokenize(panicking handler)":
 		h := &panickyHandler{builderHandler: newBuilderHandler(), at: o.B % 5, r: &res07{}}
-		err := oj.Tokenize(doc(o.A), h)
+		err := oj.Tokenize(o.doc(o.A), h)
 		r.canon = fmt.Sprint(err != nil)
 	case "Script.Eval":
 		s := c08Scripts[o.B%len(c08Scripts)]
@@ -961,7 +964,32 @@ func (o *op08) exec() (r ret08) {
 		r.canon = ref.Exact(s.Eval([]any{}, data))
 	}
 	r.snap = snapshot(r.retained)
+	// the caller reuses its own input buffers once the call has returned: what it was given must not live in them
+	for _, b := range o.handed {
+		for i := range b {
+			b[i] = 0xAA
+		}
+	}
 	return
+}
+
+// doc / senDoc: a private copy of an input text, remembered so that exec can overwrite it after the call.
+func (o *op08) doc(i int) []byte {
+	b := doc(i)
+	o.handed = append(o.handed, b)
+	return b
+}
+
+func (o *op08) own(text string) []byte {
+	b := []byte(text)
+	o.handed = append(o.handed, b)
+	return b
+}
+
+func (o *op08) senDoc(i int) []byte {
+	b := senDoc(i)
+	o.handed = append(o.handed, b)
+	return b
 }
 
 // freshMixed builds a new simple tree with struct members (for the in-place operations).
